@@ -494,7 +494,9 @@ def write_evidence(prop, tier, base_seed, mod, lines, results, wall, unknown, kn
         "loop_passes": iterations,
         "faults_fired": dict(sorted(faults.items())),
         "reach": dict(sorted(reach.items())),
-        "reach_stuck_at_zero": sorted(k for k in getattr(mod, "REACH_PROBES", []) if not reach.get(k)),
+        "reach_stuck_at_zero": sorted(k for k in getattr(mod, "REACH_PROBES", [])
+                                      if not reach.get(k) and k not in getattr(mod, "SYMPTOM_PROBES", [])),
+        "symptom_probes": {k: reach.get(k, 0) for k in getattr(mod, "SYMPTOM_PROBES", [])},
         "distinct_traces": len(traces),
         "by_subsystem": by_sub,
         "known_findings_observed": known_obs,
